@@ -1,2 +1,424 @@
-// Package c01 is the check for property C01 (see DESIGN.md section 3).
+// Package c01: an image is the exact, closed, ordered compilation of the targeted files.
+//
+// Bounded-exhaustive exploration (engine B). Every labelled import DAG on n<=3 files (edge kind in
+// {plain, public, unused}), decorated with per-file syntax and well-known-type imports, assigned to <=2
+// modules of a v2 workspace, is built through the real workspace + bufimage.BuildImage code for every input
+// directory and every --path/--exclude-path selection over the files and directories of the workspace;
+// `buf build -o -` is run in-process on scratch directories for the CLI observation point. The oracle is a
+// reference model written here (targeting, closure, topological predicate, owner) plus a bare
+// protocompile.Compiler run over the same texts (descriptors, source info, warnings, error positions).
 package c01
+
+import (
+	"context"
+	"fmt"
+	"os"
+	"regexp"
+	"sort"
+	"strings"
+	"sync"
+	"time"
+
+	"github.com/bufbuild/bufverif/internal/bufx"
+	"github.com/bufbuild/bufverif/internal/enum"
+	"github.com/bufbuild/bufverif/internal/evid"
+)
+
+func init() {
+	evid.Register(&evid.Check{ID: "C01", Level: "exploration", Run: run, QuickBudget: 150 * time.Second, ThoroughBudget: 20 * time.Minute})
+}
+
+// Case is what is written to samples / replays.
+type Case struct {
+	Phase     string            `json:"phase"`
+	Spec      *Spec             `json:"spec,omitempty"`
+	Selection *Selection        `json:"selection,omitempty"`
+	Files     map[string]string `json:"files,omitempty"`
+	Note      string            `json:"note,omitempty"`
+}
+
+type runner struct {
+	r   *evid.Run
+	ctx context.Context
+	mu  sync.Mutex
+	cnt counters
+}
+
+func (rn *runner) merge(c counters) {
+	rn.mu.Lock()
+	for k, v := range c {
+		rn.cnt[k] += v
+	}
+	rn.mu.Unlock()
+}
+
+// decorate fills Syntax and Wkt of a spec from a decoration index 0..15: file 0 gets (syntax d%4, wkt d/4),
+// the other files are rotated so that one workspace mixes syntaxes and WKT variants.
+func decorate(s *Spec, d int) {
+	s.Syntax = make([]int, s.N)
+	s.Wkt = make([]int, s.N)
+	for i := 0; i < s.N; i++ {
+		s.Syntax[i] = (d%4 + i) % 4
+		s.Wkt[i] = (d/4 + 2*i) % 4
+	}
+}
+
+// graphs returns every labelled DAG on n nodes with every edge labelling over kinds. Edge i->j: file i imports file j.
+func graphs(n int, kinds []int) [][][]int {
+	var out [][][]int
+	for _, g := range enum.Digraphs(n, true) {
+		edges := g.Edges()
+		dims := make([]int, len(edges))
+		for i := range dims {
+			dims[i] = len(kinds)
+		}
+		emit := func(idx []int) {
+			k := make([][]int, n)
+			for i := range k {
+				k[i] = make([]int, n)
+			}
+			for e, ed := range edges {
+				k[ed[0]][ed[1]] = kinds[idx[e]]
+			}
+			out = append(out, k)
+		}
+		if len(edges) == 0 {
+			emit(nil)
+			continue
+		}
+		enum.Product(dims, func(idx []int) bool { emit(idx); return true })
+	}
+	return out
+}
+
+// assignments returns (module index per file, module dirs) for every way to put n files into <=2 modules:
+// all files in one module (laid out as directory "ma" and as the workspace root "."), and every split over ma/mb
+// in which both are non-empty.
+func assignments(n int) (mods [][]int, dirs [][]string) {
+	for mask := 0; mask < (1<<n)-1; mask++ {
+		m := make([]int, n)
+		for i := 0; i < n; i++ {
+			if mask&(1<<i) != 0 {
+				m[i] = 1
+			}
+		}
+		if mask == 0 {
+			mods = append(mods, m, m)
+			dirs = append(dirs, []string{"ma"}, []string{"."})
+			continue
+		}
+		mods = append(mods, m)
+		dirs = append(dirs, []string{"ma", "mb"})
+	}
+	return
+}
+
+func specKey(s *Spec) string {
+	return fmt.Sprintf("%v|%v|%v|%v|%v|%d", s.Kind, s.Syntax, s.Wkt, s.Mod, s.ModDirs, s.Shadow)
+}
+
+// subDirSelections: the workspace root and every module directory as the input.
+func subDirSelections(w *World) []Selection {
+	sels := []Selection{{SubDir: "."}}
+	for _, d := range w.ModDirs {
+		if d != "." {
+			sels = append(sels, Selection{SubDir: d})
+		}
+	}
+	return sels
+}
+
+// pathSelections: every --path subset (size<=maxPaths) x every --exclude-path subset (size<=maxExcl) over cands.
+// With fullProduct=false, two paths are only combined with no exclude.
+func pathSelections(subDir string, cands []string, maxPaths, maxExcl int, fullProduct bool) []Selection {
+	var sels []Selection
+	for _, ps := range enum.Subsets(len(cands), 0, maxPaths) {
+		for _, es := range enum.Subsets(len(cands), 0, maxExcl) {
+			if len(ps) == 0 && len(es) == 0 {
+				continue // that is the plain sub-dir selection
+			}
+			if !fullProduct && len(ps) >= 2 && len(es) > 0 {
+				continue
+			}
+			sel := Selection{SubDir: subDir}
+			for _, i := range ps {
+				sel.Paths = append(sel.Paths, cands[i])
+			}
+			for _, i := range es {
+				sel.Excludes = append(sel.Excludes, cands[i])
+			}
+			sels = append(sels, sel)
+		}
+	}
+	return sels
+}
+
+var reNorm = regexp.MustCompile(`"[^"]*"|[0-9]+`)
+
+func normErr(err error) string {
+	s := err.Error()
+	if len(s) > 160 {
+		s = s[:160]
+	}
+	return reNorm.ReplaceAllString(s, "_")
+}
+
+// runWorld builds one world under every selection through the API and checks each outcome.
+func (rn *runner) runWorld(phase string, s *Spec, w *World, sels []Selection, directFor func([]string) *Direct) {
+	cnt := counters{}
+	defer rn.merge(cnt)
+	files := w.BucketFiles()
+	for _, sel := range sels {
+		sel := sel
+		rn.r.Eval(1)
+		cnt.add("api_builds", 1)
+		mkCase := func() any { return Case{Phase: phase, Spec: s, Selection: &sel, Files: files} }
+		targets := refTargets(w, sel)
+		ws, err := bufx.Workspace(rn.ctx, bufx.MemBucket(files), sel.SubDir, sel.Paths, sel.Excludes, bufx.NopProviders)
+		var obs []obsFile
+		if err == nil {
+			image, berr := bufx.BuildWorkspaceImage(rn.ctx, ws)
+			err = berr
+			if err == nil {
+				obs = observeImage(image)
+			}
+		}
+		if err != nil {
+			switch {
+			case len(targets) == 0:
+				cnt.add("outcome_error_no_targets", 1)
+			case selectionMayBeRejected(w, sel):
+				cnt.add("outcome_selection_rejected", 1)
+			default:
+				rn.r.Violate("api/build/unexpected-error/"+normErr(err), fmt.Sprintf("%s: reference targets %v compile directly, buf returned: %v", sel, targets, err), mkCase())
+			}
+			continue
+		}
+		if len(targets) == 0 {
+			rn.r.Violate("api/build/image-without-targets", fmt.Sprintf("%s: no file is targeted according to the reference model, but an image with %d files was built", sel, len(obs)), mkCase())
+			continue
+		}
+		cnt.add("outcome_image", 1)
+		direct := directFor(targets)
+		if direct == nil {
+			continue
+		}
+		exp := &expectation{world: w, targets: targets, direct: direct}
+		vs := checkImage("api", exp, obs, cnt)
+		report(rn.r, vs, mkCase())
+		if len(obs) >= 2 {
+			rn.r.Distinct(phase + "|" + specKey(s) + "|" + sel.String())
+		}
+		if len(sel.Paths) > 0 {
+			cnt.add("selection_with_paths", 1)
+		}
+		if len(sel.Excludes) > 0 {
+			cnt.add("selection_with_excludes", 1)
+		}
+		if sel.SubDir != "." {
+			cnt.add("selection_module_dir_input", 1)
+		}
+	}
+}
+
+// prepare renders a spec, runs the bare compiler over all files and cross-checks the two reference sides. The
+// returned function compiles exactly a target list (as buf does: the compiler only reports unused imports for the
+// files it was asked to compile), memoised per target list.
+func (rn *runner) prepare(s *Spec) (*World, func([]string) *Direct, bool) {
+	w := s.Render()
+	var names []string
+	for _, f := range w.Files {
+		names = append(names, f.Path)
+	}
+	sort.Strings(names)
+	direct := directCompile(w.Texts(), names)
+	if !direct.OK {
+		rn.r.Incomplete(fmt.Sprintf("harness: generated workspace does not compile directly: %+v %s (%s)", direct.Errors, direct.OtherErr, specKey(s)))
+		return nil, nil, false
+	}
+	if msg := checkSpecAgainstDirect(s, direct); msg != "" {
+		rn.r.Incomplete("harness: reference sides disagree: " + msg + " (" + specKey(s) + ")")
+		return nil, nil, false
+	}
+	texts := w.Texts()
+	cache := map[string]*Direct{strings.Join(names, ","): direct}
+	return w, func(targets []string) *Direct {
+		key := strings.Join(targets, ",")
+		if d, ok := cache[key]; ok {
+			return d
+		}
+		d := directCompile(texts, targets)
+		if !d.OK {
+			rn.r.Incomplete(fmt.Sprintf("harness: targets %v do not compile directly: %+v %s (%s)", targets, d.Errors, d.OtherErr, specKey(s)))
+			d = nil
+		}
+		cache[key] = d
+		return d
+	}, true
+}
+
+type worldItem struct {
+	phase string
+	spec  *Spec
+	sels  func(w *World) []Selection
+}
+
+func run(r *evid.Run) {
+	rn := &runner{r: r, ctx: context.Background(), cnt: counters{}}
+	quick := r.Quick()
+	r.Rule("phase graph: every labelled import DAG on n<=3 files x every edge labelling over {plain, public, unused-plain} (thorough: + n=4 plain) " +
+		"x every assignment of the files to <=2 modules (single module as directory and as workspace root) x decoration (per-file syntax in {proto3, proto2, editions 2023, unspecified} " +
+		"and WKT import variant in {none, Any used last, Any unused first, descriptor.proto used by a custom option with a message literal + unused timestamp.proto}; quick 4 of the 16 decorations) " +
+		"x every input directory (workspace root, each module directory). phase paths: the 25 DAG shapes on 3 files x kind rotation x every assignment x every --path subset (size<=2) and --exclude-path subset (size<=1) " +
+		"over {every file, every directory, one non-existing path}. phase shadow: workspaces that supply their own google/protobuf/any.proto. phase cli: `buf build <dir> -o -#format=binpb` with the same selections on scratch directories. " +
+		"phase errors: 6 base workspaces x every token position x {delete, duplicate}. A case is distinct by (workspace, selection) resp. (base, file, token, operator); it is non-trivial if the image has >=2 files resp. the mutation is a compile error.")
+	r.Assume("the Protobuf compiler of the property is github.com/bufbuild/protocompile (the compiler buf links); it is run bare (own map resolver, standard imports, same SourceInfoMode) as the oracle")
+	r.Assume("modules are local workspace modules (no commit); remote modules with commits are covered by C10")
+	r.Assume("selections buf refuses by design (module directory as --path/--exclude-path, exclude containing a path) may error; when they build, the image is checked")
+
+	var items []worldItem
+	addGraphPhase := func(n int, kinds []int, decors []int) {
+		mods, dirs := assignments(n)
+		for _, k := range graphs(n, kinds) {
+			for a := range mods {
+				for _, d := range decors {
+					s := &Spec{N: n, Kind: k, Mod: mods[a], ModDirs: dirs[a], Shadow: -1}
+					decorate(s, d)
+					items = append(items, worldItem{phase: "graph", spec: s, sels: subDirSelections})
+				}
+			}
+		}
+	}
+	decors := []int{1, 6, 11, 12}
+	if !quick {
+		decors = nil
+		for d := 0; d < 16; d++ {
+			decors = append(decors, d)
+		}
+	}
+	allKinds := []int{kPlain, kPublic, kUnused}
+	for n := 1; n <= 3; n++ {
+		addGraphPhase(n, allKinds, decors)
+	}
+	if !quick {
+		addGraphPhase(4, []int{kPlain}, []int{1, 6, 11, 12})
+	}
+	r.Set("graph_phase_worlds", len(items))
+
+	// paths phase
+	rotations := 1
+	if !quick {
+		rotations = 3
+	}
+	nPathWorlds := 0
+	{
+		mods, dirs := assignments(3)
+		for gi, g := range enum.Digraphs(3, true) {
+			for rot := 0; rot < rotations; rot++ {
+				k := make([][]int, 3)
+				for i := range k {
+					k[i] = make([]int, 3)
+				}
+				for e, ed := range g.Edges() {
+					k[ed[0]][ed[1]] = allKinds[(e+rot+gi)%3]
+				}
+				for a := range mods {
+					s := &Spec{N: 3, Kind: k, Mod: mods[a], ModDirs: dirs[a], Shadow: -1}
+					decorate(s, (gi+5*rot)%16)
+					full := !quick
+					items = append(items, worldItem{phase: "paths", spec: s, sels: func(w *World) []Selection {
+						cands := append(pathCandidates(w), joinDir(w.ModDirs[0], "nope"))
+						sels := pathSelections(".", cands, 2, 1, full)
+						for _, d := range w.ModDirs {
+							if d != "." {
+								sels = append(sels, pathSelections(d, cands, 1, 1, true)...)
+							}
+						}
+						return sels
+					}})
+					nPathWorlds++
+				}
+			}
+		}
+	}
+	r.Set("paths_phase_worlds", nPathWorlds)
+
+	// shadow phase: graphs on <=2 files, file 0 (and by rotation others) import Any; a module supplies its own any.proto.
+	nShadow := 0
+	for n := 1; n <= 2; n++ {
+		mods, dirs := assignments(n)
+		for _, k := range graphs(n, []int{kPlain, kPublic}) {
+			for a := range mods {
+				for _, d := range []int{4, 9, 2, 15} { // file 0: Any used / Any unused / none (file 1 imports it) / descriptor
+					for sh := range dirs[a] {
+						s := &Spec{N: n, Kind: k, Mod: mods[a], ModDirs: dirs[a], Shadow: sh}
+						decorate(s, d)
+						items = append(items, worldItem{phase: "shadow", spec: s, sels: func(w *World) []Selection {
+							sels := subDirSelections(w)
+							return append(sels, pathSelections(".", pathCandidates(w), 1, 1, true)...)
+						}})
+						nShadow++
+					}
+				}
+			}
+		}
+	}
+	r.Set("shadow_phase_worlds", nShadow)
+
+	phaseOn := func(p string) bool {
+		f := os.Getenv("C01_PHASES") // debugging aid: comma separated subset of graph,paths,shadow,cli,errors
+		return f == "" || strings.Contains(","+f+",", ","+p+",")
+	}
+	if os.Getenv("C01_PHASES") != "" {
+		r.Incomplete("C01_PHASES is set: only a subset of the phases ran")
+	}
+	r.ParallelFor(len(items), 0, func(i int) {
+		it := items[i]
+		if !phaseOn(it.phase) {
+			return
+		}
+		w, directFor, ok := rn.prepare(it.spec)
+		if !ok {
+			return
+		}
+		sels := it.sels(w)
+		r.SampleEvery(i, 2503, func() any {
+			return Case{Phase: it.phase, Spec: it.spec, Selection: &sels[len(sels)-1], Files: w.BucketFiles()}
+		})
+		rn.runWorld(it.phase, it.spec, w, sels, directFor)
+	})
+
+	scratch, err := os.MkdirTemp("", "verif-c01-")
+	if err != nil {
+		r.Incomplete("scratch: " + err.Error())
+	} else {
+		defer os.RemoveAll(scratch)
+		if phaseOn("cli") {
+			rn.runCLIPhase(scratch, items)
+		}
+		if phaseOn("errors") {
+			rn.runErrorPhase(scratch)
+		}
+	}
+
+	// coverage facts and vacuity guards
+	keys := make([]string, 0, len(rn.cnt))
+	for k := range rn.cnt {
+		keys = append(keys, k)
+	}
+	sort.Strings(keys)
+	for _, k := range keys {
+		r.Set(k, rn.cnt[k])
+	}
+	for _, k := range []string{
+		"outcome_image", "outcome_error_no_targets", "clause_closure_cases_with_imports_added", "clause_order_pairs",
+		"clause_flag_targets", "clause_flag_imports", "clause_descriptor_files", "clause_unused_nonempty",
+		"clause_syntax_unspecified", "clause_owner_files", "clause_wkt_builtin", "clause_wkt_workspace_supplied",
+		"selection_with_paths", "selection_with_excludes", "selection_module_dir_input",
+		"cli_images", "error_cases_compile_error", "error_cases_still_compile", "cli_error_runs",
+	} {
+		if rn.cnt[k] == 0 && !r.Expired() {
+			r.Incomplete("vacuous: counter " + k + " is zero")
+		}
+	}
+}
